@@ -242,6 +242,19 @@ def cexn(name):
 
 
 # ------------------------------------------------------------ kernels regenerated from the source (tools/py2v.py)
+def ws_table_obligation(work):
+    """PyStr.is_ws (the model of str.isspace, hence of str.strip) accepts exactly the code points this interpreter's str.isspace does:
+    the table is recomputed inside Coq over every code point and compared with the interpreter's."""
+    table = [c for c in range(0x110000) if chr(c).isspace()]
+    path = os.path.join(work, "WsTable.v")
+    with open(path, "w") as f:
+        f.write("From Plotink Require Import Base.Prelude Base.PyStr.\nOpen Scope Z_scope.\n"
+                "Definition ws_table := rev (snd (Pos.iter (fun st : Z * list Z => let (c, acc) := st in (c + 1, if is_ws c then c :: acc else acc)) (0, []) 1114112)).\n"
+                "Goal ws_table = [%s]. Proof. vm_compute. reflexivity. Qed.\n" % "; ".join(map(str, table)))
+    rc, out = sh(["timeout", "150", "coqc", "-Q", COQ, "Plotink", path], 170)
+    return [("PyStr.is_ws = str.isspace on every code point", rc == 0, out[-1500:] if rc != 0 else "")]
+
+
 def kernel_obligations(work, pid, source, names, mode="q"):
     """Translate the named loop-free functions of /repo's current `source` to Gallina and compile them together with the committed
     equivalence lemmas tools/py2v_eq/<pid>.v (which tie them to the hand-written model).  Returns [(name, good, detail)]."""
